@@ -67,7 +67,11 @@ type thread struct {
 	recs     [8]loadRec
 	recNext  int
 	yielding bool
-	panicked any
+	// starvation deviation (see Sched.StarveCap)
+	starving    bool
+	starveEpoch uint64
+	starveCount int
+	panicked    any
 	stack    string
 }
 
@@ -88,6 +92,11 @@ type Sched struct {
 	epoch   uint64 // bumped by every write-class operation of any thread
 	// coarse mode: only Env/explicit points are preemptible; SYNC points only make blocking visible.
 	Coarse bool
+	// StarveCap > 0 enables the starvation deviation: choosing to continue a spinning thread at a yield point
+	// (cost 1, as before) lets it keep spinning, without further choice points, for up to StarveCap yields or
+	// until some write happens. This is how waits that give up after a bounded number of re-reads are reached:
+	// the thread they wait for is simply not scheduled for that long (one preemption in reality).
+	StarveCap int
 
 	horizon      int
 	spinNoWrite  int
@@ -266,6 +275,9 @@ func (s *Sched) choose(cur *thread, kind uint8) *thread {
 		return opts[0]
 	}
 	idx := s.decide(len(opts), kind)
+	if kind == KindYield && s.StarveCap > 0 && opts[idx] == cur {
+		cur.starving, cur.starveEpoch, cur.starveCount = true, s.epoch, 0
+	}
 	return opts[idx]
 }
 
@@ -367,6 +379,13 @@ func (s *Sched) point(preemptible bool) {
 	if cur.yielding {
 		cur.yielding = false
 		kind = KindYield
+		if cur.starving {
+			if s.epoch == cur.starveEpoch && cur.starveCount < s.StarveCap {
+				cur.starveCount++
+				return
+			}
+			cur.starving = false
+		}
 		if s.epoch == s.lastSpinEpoc {
 			s.spinNoWrite++
 			if s.spinNoWrite > 2000 {
